@@ -68,8 +68,12 @@ func c09APIProbe(env *Env, b []byte, variant int) {
 			}
 		}
 	}
+	// one Message object is parsed into again and again, as the engine does when it answers a ResendRequest
+	// (every stored message of the range goes into the same Message)
+	reused := quickfix.NewMessage()
+	_ = quickfix.ParseMessage(reused, bytes.NewBufferString("8=FIX.4.2\x019=49\x0135=0\x0149=A\x0156=B\x0134=1\x0152=20000101-00:00:00\x0110=000\x01"))
 	for _, in := range inputs {
-		for mode := 0; mode < 3; mode++ {
+		for mode := 0; mode < 4; mode++ {
 			func() {
 				defer func() {
 					if r := recover(); r != nil {
@@ -77,6 +81,9 @@ func c09APIProbe(env *Env, b []byte, variant int) {
 					}
 				}()
 				msg := quickfix.NewMessage()
+				if mode == 3 {
+					msg = reused
+				}
 				var err error
 				buf := bytes.NewBuffer(append([]byte(nil), in...))
 				switch mode {
@@ -86,6 +93,8 @@ func c09APIProbe(env *Env, b []byte, variant int) {
 					err = quickfix.ParseMessageWithDataDictionary(msg, buf, c09Dicts["FIX44"], c09Dicts["FIX44"])
 				case 2:
 					err = quickfix.ParseMessageWithDataDictionary(msg, buf, c09Dicts["FIXT11"], c09Dicts["FIX50SP2"])
+				case 3:
+					err = quickfix.ParseMessage(msg, buf)
 				}
 				env.Stat("probe_api_parse")
 				if err != nil {
